@@ -25,6 +25,10 @@ REQUIRED = [
     "DaeVerif.C19.Props.param_contents_agree",
     "DaeVerif.C19.Props.go_native_endian_is_machine_endian",
     "DaeVerif.C19.Props.conn_consts_now",
+    "DaeVerif.C19.Props.programs_and_map_kinds_agree",
+    "DaeVerif.C19.Props.max_match_set_len_override_consistent",
+    "DaeVerif.C19.Props.generated_values_fit_their_storage",
+    "DaeVerif.C19.Props.checked_in_spec_fits",
     "DaeVerif.C19.Props.enum_mask_little_endian_partial",
     "DaeVerif.C19.Props.enum_mask_big_endian_differs",
     "DaeVerif.C19.Props.dscp_view_any_endian",
@@ -89,7 +93,7 @@ def diagnostics(ctx):
     ops = []
     for k in ("obl", "const", "limit", "map", "mapio", "cclass", "fieldlit", "param", "endian", "wiretype"):
         ops += [f"{k} {i}" for i in range(int(c.get(k, 0)))]
-    ops += ["classify", "handles", "genfiles", "listencheck", "conncheck", "keymodelcheck", "statscheck", "archreport", "wirereport"]
+    ops += ["classify", "handles", "genfiles", "listencheck", "conncheck", "keymodelcheck", "statscheck", "progcheck", "overridecheck", "widthcheck", "archreport", "wirereport"]
     ans = drv(ctx, ops, "c19diag") or []
     n = 0
     grouped = {}   # layout obligations that fail identically on several GOARCHes are one finding
@@ -293,6 +297,10 @@ def c_side(ctx, gen_out, flow_files):
                 d16 = "%032x" % rng.intn(2 ** 128)
                 cross.append((len(ops), "mackey", gokey))
                 ops.append(f"croute le {s16} {d16} {'00' * 10 + mac}"); inc("croute.mackey")
+                # … and through the three real callers of route() that pack the source MAC themselves
+                for site in ("lan", "wan_tcp", "wan_udp"):
+                    cross.append((len(ops), "macsite", gokey))
+                    ops.append(f"cmacsite le {site} {mac}"); inc("cmacsite." + site)
             elif w[0] == "portrange":
                 _, a, b, enc = w
                 cross.append((len(ops), "portrange", f"{a}-{b}"))
@@ -353,6 +361,8 @@ def c_side(ctx, gen_out, flow_files):
             ok = ("lpm_d=" + want) in got.split()
         elif kind == "mackey":
             ok = ("lpm_m=" + want) in got.split()
+        elif kind == "macsite":
+            ok = got == want
         elif kind == "msview":
             view, val, mtype = want
             d = dict(kv.split("=", 1) for kv in got.split(";") if "=" in kv)
@@ -398,6 +408,51 @@ def c_side(ctx, gen_out, flow_files):
     return n
 
 
+RELEASE_ARCHES = ["amd64", "arm64", "riscv64", "loong64", "mips64", "mips64le", "ppc64", "ppc64le", "s390x", "386", "arm", "mipsle", "mips"]
+
+
+def archcheck(ctx, gen_out):
+    """The translator wrote gen/archcheck: the plain-data types as standalone Go source plus, per GOARCH,
+    constant index expressions that compile iff the gc compiler's Sizeof/Alignof/Offsetof equal the
+    go/types tables. Cross-compile it for every release GOARCH (no linking, nothing executed)."""
+    d = os.path.join(gen_out, "archcheck")
+    bad = []
+    if not os.path.isdir(d):
+        return ["archcheck package was not generated"]
+    for a in RELEASE_ARCHES:
+        env = go_env()
+        env.update(GOARCH=a, GOOS="linux", CGO_ENABLED="0")
+        rc, out, dt = sh(["go", "build", "./..."], cwd=d, env=env, timeout=900)
+        ctx.log.write(f"$ GOARCH={a} go build archcheck [{dt:.1f}s rc={rc}] {out[-600:]}\n")
+        if rc != 0:
+            bad.append(f"GOARCH={a}: the gc compiler's layout differs from the go/types table (or the package does not compile): " + " | ".join(out.strip().split("\n")[:3]))
+    return bad
+
+
+# floors: a run that exercised less than this is not a pass (exit 2), whatever the tier
+FLOORS = {
+    "go-real": {"connwrite": 6912, "conn": 6912, "flow.v4.is4": 100, "flow.v4.mapped": 50, "flow.v4.mixedforms": 10, "flow.v6": 100,
+                "flow.v6.literal-v4mapped": 10, "flow.port53": 10, "flow.port-boundary": 30, "lpm": 300, "lpm.host": 50,
+                "lpm.boundary-length": 40, "domkey.production": 300, "domsync": 60, "matchset.byteval": 60, "matchset.setidx": 40,
+                "matchset.ring": 30, "matchset.mackey": 40, "matchset.port": 30, "golayout": 14, "goconst": 40, "htons": 200},
+    "generator": {"spec": 150, "outbound.custom": 100, "outbound.custom.odd-underscores": 30},
+    "c-native": {"clayout": 20, "cconst": 60, "cmap": 15, "ctuples.v4": 200, "ctuples.v6": 100, "croute.dom": 300, "croute.lpmhost": 50,
+                 "croute.mackey": 40, "cmacsite.lan": 40, "cmacsite.wan_tcp": 40, "cmacsite.wan_udp": 40, "cconn": 6000, "clisten": 10,
+                 "cdec.matchset.l4proto_type": 20, "cdec.matchset.ip_version": 20, "cdec.matchset.dscp": 20, "cdec.matchset.index": 60,
+                 "cdec.matchset.port_range": 30, "cross.total": 8000},
+}
+
+
+def below_floor(dist):
+    out = []
+    for stream, floors in FLOORS.items():
+        got = dist.get(stream, {})
+        for k, v in floors.items():
+            if got.get(k, 0) < v:
+                out.append(f"{stream}.{k}={got.get(k, 0)} < {v}")
+    return out
+
+
 def diff(ctx, label, ops, impl, model):
     if not ctx.driver("c19drv", ops, model):
         ctx.proof_failures.append("model driver c19drv failed on " + label)
@@ -437,6 +492,7 @@ def run(ctx):
     pool = ThreadPoolExecutor(max_workers=2)
     f_go = {v: pool.submit(go_variant, ctx, v) for v in variants}
     f_gen = pool.submit(gen_variant, ctx)
+    f_arch = pool.submit(archcheck, ctx, gen_out)
 
     # driver first (does not depend on the theorems), so that a broken table theorem can be explained
     ok, out = ctx.lake_build(["c19drv"])
@@ -486,6 +542,16 @@ def run(ctx):
     if n is None:
         return 2
     total += n
+    arch_bad = f_arch.result()
+    for b in arch_bad:
+        ctx.report("Go layout table not confirmed by the compiler: " + b, {"kind": "archcheck", "detail": b})
+    ctx.cov["archcheck_goarches"] = len(RELEASE_ARCHES) - len(arch_bad)
+    total += len(RELEASE_ARCHES)
+    low = below_floor(ctx.cov["input_distribution"])
+    if low and not ctx.violations and not ctx.proof_failures:
+        ctx.say("COVERAGE-BELOW-FLOOR (not a pass): " + "; ".join(low))
+        return 2
+    ctx.cov["floors"] = "all input-class floors met" if not low else low
     return ctx.finish(rule="table items = one (pairing, GOARCH) layout obligation / constant pair / limit / map; "
                            "ops = one real-code evaluation (Go in-process / native tproxy.c) compared with the model; "
                            "distinct_nontrivial = table items + distinct op lines",
